@@ -1012,8 +1012,12 @@ def flatten(x:Tensor, start_dim:int=0, end_dim:int=-1) -> 'Tensor':
         raise TypeError(f"Expected x to be a Tensor but got {type(x)}")
     
     shape = x.shape
-    start = start_dim if start_dim != -1 else len(shape)
-    end = end_dim if end_dim != -1 else len(shape)
+    ndim = len(shape) if len(shape) > 0 else 1 # a 0-d tensor is flattened like a 1-d one
+    if not (-ndim <= start_dim < ndim and -ndim <= end_dim < ndim):
+        raise IndexError(f"Dimension out of range for tensor with {len(shape)} dimensions: {start_dim}, {end_dim}")
+    start = start_dim + ndim if start_dim < 0 else start_dim
+    end = end_dim + ndim if end_dim < 0 else end_dim
+    if len(shape) == 0: shape = (1,)
     if start > end:
         raise RuntimeError("flatten() has invalid args: start_dim cannot come after end_dim")
     if start < end:
